@@ -24,6 +24,7 @@ RULE += "; body outcomes include a CancelledError of the body's own (no cancel r
 RULE += '; resource programs (a task that ends when a disposable of the scope is exited); disposables may spawn while entering'
 RULE += '; the outermost scope may have a spawning disposable; scope objects may be created further out than they are entered'
 RULE += '; blocks failing with every exception of the family; disposables whose set-up / cleanup absorbs an interruption'
+RULE += '; blocks entered inside an `except` handler; disposables that spawn while they exit'
 LEVEL_TEXT = (
     "At the first harness instruction after every async scope block (any exit path) every task spawned into it, "
     "transitively, must be done; leaving must terminate (virtual loop quiescence = hang, decided exactly); outside any "
@@ -195,7 +196,7 @@ def run_case(case) -> Outcome:
 
 def strategy(tier):
     progs = conc.program(disp_faults=False, body_raises=True, top_spawn=True)
-    return st.one_of(progs, progs, progs, progs, conc.resource_program(), conc.prepared_program(), conc.failing_body_program(), conc.absorbing_disposable_program()).map(lambda p: {**p, "inject": None})
+    return st.one_of(progs, progs, progs, progs, conc.resource_program(), conc.prepared_program(), conc.failing_body_program(), conc.absorbing_disposable_program(), conc.handler_program()).map(lambda p: {**p, "inject": None})
 
 
 def budget(tier):
